@@ -407,7 +407,9 @@ def run(ctx):
                 report(ctx, c, fo, why, seen)
     if ws and os.path.exists(os.path.join(verif.HBIN, "c03")):
         judge_e2e(ctx, run_e2e(ctx, ["-seed", ctx.seed, "-n", 4 if quick else 96, "-per", 8], "e2e"), af, seen)
-        # every packet-scan command line through its real RunE, Ethernet and VPN (tun) mode
+    if True:
+        # every packet-scan command line through its real RunE, Ethernet and VPN (tun) mode; this stage needs nothing
+        # from the translator or the model, so it also runs when those are broken
         cli_file = os.path.join(ctx.work, "cli.in.json")
         with open(cli_file, "w") as f:
             json.dump(cli_cases() * (1 if quick else 6), f)
